@@ -48,7 +48,12 @@ def rates(draw, allow_high=False):
 
 @st.composite
 def rf_configs(draw, spf_cap=4096, boundary_p=0.6, force=None):
-    n, d = draw(rates(allow_high=spf_cap >= 2048))
+    force_big = spf_cap >= 2048 and draw(st.integers(0, 7)) == 0
+    if force_big:
+        # class "index above 2^53 and not representable as a double" (any float64 detour corrupts it)
+        n, d = draw(st.sampled_from(HIGH_RATES))
+    else:
+        n, d = draw(rates(allow_high=spf_cap >= 2048))
     # file cadence: at least one sample in *every* file  <=> F*n >= 1000*d ; cap samples per file
     cands = [F for F in CADENCES if F * n >= 1000 * d and _spf(n, d, F) <= spf_cap]
     if not cands:
@@ -82,6 +87,11 @@ def rf_configs(draw, spf_cap=4096, boundary_p=0.6, force=None):
         "n": n, "d": d, "F": F, "S": S, "cont": cont, "comp": comp, "checksum": checksum,
         "salt": draw(st.integers(0, (1 << 32) - 1)), "uuid": "verif",
     }
+    if _spf(n, d, F) > 8192:
+        # very large files: keep one narrow real subchannel so that a case stays below a few MB
+        cfg["nsub"] = 1
+        cfg["cplx"] = 0
+        cfg["size"] = 4 if kind == "f" else min(size, 2)
     if force:
         cfg.update(force)
     if cfg["cplx"] and cfg["kind"] == "f" and cfg["form"] == "native" and cfg["order"] == ">":
@@ -109,6 +119,10 @@ def rf_configs(draw, spf_cap=4096, boundary_p=0.6, force=None):
         t = draw(st.integers(T1980, T2100 - 86400))
         start = (t * n) // d + draw(st.integers(0, max(0, spf - 1)))
     cfg["start"] = max(0, start)
+    if force_big and float(cfg["start"]) == cfg["start"]:
+        cfg["start"] += 1  # make it odd / inexact in binary64
+        if float(cfg["start"]) == cfg["start"]:
+            cfg["start"] += 2
     return cfg
 
 
